@@ -35,11 +35,13 @@ type vfCrypto struct {
 	pri   *share.PriPoly
 }
 
-func vfNewCrypto(n, t int) *vfCrypto {
+func vfNewCrypto(n, t int) *vfCrypto { return vfNewCryptoTag(n, t, "") }
+
+func vfNewCryptoTag(n, t int, tag string) *vfCrypto {
 	c := &vfCrypto{n: n, t: t}
 	if vf.Symbolic() {
 		for i := 0; i < t; i++ {
-			c.commits = append(c.commits, vf.Bytes("commit"+strconv.Itoa(i), 2))
+			c.commits = append(c.commits, vf.Bytes(tag+"commit"+strconv.Itoa(i), 2))
 		}
 		return c
 	}
@@ -51,11 +53,19 @@ func vfNewCrypto(n, t int) *vfCrypto {
 		b, _ := p.MarshalBinary()
 		c.commits = append(c.commits, b)
 	}
+	c.activate()
+	return c
+}
+
+// activate: natively, bls.sig(poly, msg) is evaluated with this round's group secret from now on
+func (c *vfCrypto) activate() {
+	if vf.Symbolic() {
+		return
+	}
 	vf.RegisterUFBytes("bls.sig", func(in ...[]byte) []byte {
 		s, _ := bls.Sign(c.suite, c.pri.Secret(), in[1])
 		return s
 	})
-	return c
 }
 
 func (c *vfCrypto) polyConcat() []byte {
@@ -102,10 +112,12 @@ func (c *vfCrypto) expected(msg []byte) []byte {
 	return vf.UFBytes("bls.sig", 96, c.polyConcat(), msg)
 }
 
+var vfSignRound = "round"
+
 func vfSignedMessage(ev string, sender int, payload interface{}) storage.Message {
 	data, _ := json.Marshal(payload)
 	_, priv := state_machines.VFKeyPair(sender)
-	return storage.Message{ID: "id", DkgRoundID: "round", Event: ev, Data: data, Signature: ed25519.Sign(priv, data), SenderAddr: state_machines.VFUser(sender)}
+	return storage.Message{ID: "id", DkgRoundID: vfSignRound, Event: ev, Data: data, Signature: ed25519.Sign(priv, data), SenderAddr: state_machines.VFUser(sender)}
 }
 
 var vfPerms3 = [][]int{{0, 1, 2}, {0, 2, 1}, {1, 0, 2}, {1, 2, 0}, {2, 0, 1}, {2, 1, 0}}
@@ -158,6 +170,7 @@ func VF_NodeSign() {
 		}
 		return ids[bs][k]
 	}
+	rid := "round"
 	runBatch := func(b int, order []int, lateFrom int, lateBatch string, latePayloads [][]byte) ([][]byte, bool) {
 		bs := strconv.Itoa(b)
 		batchID := "batch-" + bs
@@ -190,10 +203,10 @@ func VF_NodeSign() {
 		for k := 0; k < t; k++ {
 			if k == latePos {
 				// the slow participant's answer to the PREVIOUS batch lands in the middle of this one
-				pre := vfTake(e, []string{"round"})
+				pre := vfTake(e, []string{rid})
 				lerr := answer(lateFrom, lateBatch, latePayloads, "late")
-				post := vfTake(e, []string{"round"})
-				vf.Assert("late-answer-noop", vf.And(lerr != nil, vfSame(pre, post, []string{"round"})))
+				post := vfTake(e, []string{rid})
+				vf.Assert("late-answer-noop", vf.And(lerr != nil, vfSame(pre, post, []string{rid})))
 			}
 			if err := answer(order[k], batchID, payloads, "b"+bs); err != nil {
 				vf.Record("answer-rejected", err.Error())
@@ -213,9 +226,9 @@ func VF_NodeSign() {
 			return nil, false
 		}
 		// C07: ends idle with every message of the batch stored; C01/C03: each stored signature is Sig(poly, proposed payload)
-		dumpNow, _ := e.fsm.GetFSMDump(&dto.DkgIdDTO{DkgID: "round"})
+		dumpNow, _ := e.fsm.GetFSMDump(&dto.DkgIdDTO{DkgID: rid})
 		vf.Assert("ends-idle:batch"+bs, dumpNow != nil && string(dumpNow.State) == "stage_signing_idle")
-		stored, _ := e.node.sigService.GetSignaturesByBatchID(&dto.SignaturesByBatchIdDTO{DkgID: "round", BatchID: batchID})
+		stored, _ := e.node.sigService.GetSignaturesByBatchID(&dto.SignaturesByBatchIdDTO{DkgID: rid, BatchID: batchID})
 		for k := range payloads {
 			id := idOf(bs, k)
 			entries := stored[id]
@@ -225,9 +238,11 @@ func VF_NodeSign() {
 					found = true
 					vf.Assert("stored-is-recovered", vf.BytesEq(en.Signature, cr.expected(payloads[k])))
 					vf.Assert("stored-payload-is-proposed", vf.BytesEq(en.SrcPayload, payloads[k]))
-					vf.Assert("stored-entry-labels", en.MessageID == id && en.BatchID == batchID && en.DKGRoundID == "round")
+					vf.Assert("stored-entry-labels", en.MessageID == id && en.BatchID == batchID && en.DKGRoundID == rid)
+					vf.Assert("stored-file-is-proposed", en.File == "file"+strconv.Itoa(k))
 				} else {
 					vf.Assert("proposal-entry-payload-is-proposed", vf.BytesEq(en.SrcPayload, payloads[k]))
+					vf.Assert("proposal-entry-file-is-proposed", en.File == "file"+strconv.Itoa(k))
 				}
 			}
 			vf.Assert("all-batches-stored:batch"+bs, found)
@@ -246,10 +261,31 @@ func VF_NodeSign() {
 	if !ok {
 		return
 	}
-	if t < n {
+	if t < n && vf.Param("tworounds") == "" {
 		// the slow participant of batch 1 answers late, while batch 2 is being collected
 		order2 := pick("order2")
 		_, ok = runBatch(2, order2, order[n-1], "batch-1", p1)
+		if !ok {
+			return
+		}
+	}
+	if vf.Param("tworounds") != "" {
+		// the same node takes part in a second finished round with its own polynomial and a LARGER threshold (t=3)
+		cr2 := vfNewCryptoTag(n, 3, "r2.")
+		if vf.Symbolic() {
+			for _, cm := range cr2.commits {
+				vf.Assume(vf.UFBool("kyber.pt.decodes", cm))
+			}
+		}
+		_, d2 := state_machines.VFDump("stage_signing_idle;3;3;111;k.fk.fk.f;q;.P.", "round2")
+		d2.Payload.DKGProposalPayload.PubPolyBz = cr2.pubPolyBz()
+		bz2, _ := json.Marshal(d2)
+		_ = e.fsm.SaveFSM("round2", bz2)
+		rid, cr, t = "round2", cr2, 3
+		vfSignRound = "round2"
+		cr2.activate()
+		_, ok = runBatch(3, vfPerms3[0], -1, "", nil)
+		vfSignRound = "round"
 		if !ok {
 			return
 		}
